@@ -500,13 +500,28 @@ fn gen_case<const N: usize>(id: u64, r: &mut Rng, thorough: bool, out: &mut Out)
                     saw_report = true;
                     out.stat("op_rep_some", 1);
                     let sid: u32 = rest.split_whitespace().next().and_then(|x| x.parse().ok()).unwrap_or(0);
-                    step(run, out, format!("q {}", sid));
-                    if r.chance(1, 2) {
-                        let mode = match r.below(12) {
-                            0..=5 => "keep",
-                            6..=8 => "retry",
-                            9..=10 => "unsent",
-                            _ => "drop",
+                    let q = step(run, out, format!("q {}", sid));
+                    // what the reporter of `im.rs` sees: the report is EMPTY when the filter selects
+                    // nothing (the table-level subscriber selects the whole probed universe), no
+                    // liveness report is due and no event is pending; only then nothing is sent and
+                    // the context ends with `set_keep_unsent`
+                    let qw: Vec<&str> = q.split(" | ").next().unwrap_or("").split_whitespace().collect();
+                    let empty = qw.len() == 3
+                        && qw[0].bytes().all(|b| b == b'0')
+                        && qw[1] == "0"
+                        && qw[2].parse::<u64>().map(|sev| sev >= evwm).unwrap_or(false);
+                    if empty {
+                        out.stat("report_empty", 1);
+                    }
+                    if r.chance(1, 2) || empty {
+                        let mode = if empty {
+                            "unsent"
+                        } else {
+                            match r.below(10) {
+                                0..=5 => "keep",
+                                6..=8 => "retry",
+                                _ => "drop",
+                            }
                         };
                         step(run, out, format!("fin {} {}", sid, mode));
                         out.stat(&format!("fin_report_{}", mode), 1);
